@@ -112,7 +112,7 @@ func C07(c *ev.Ctx) {
 				}
 			}
 		}
-		if usesMachine && !strings.Contains(src, "goose/machine") {
+		if usesMachine && !strings.Contains(src, "goose/machine\"") {
 			src = strings.Replace(src, "package gen\n\n", "package gen\n\nimport \"github.com/goose-lang/goose/machine\"\n\n", 1)
 		}
 		src += "\n" + strings.Join(pieces, "\n")
